@@ -77,6 +77,25 @@ def session (fuel : Nat) (sr : UInt64) (P0 : Prog) (swaps : List (Nat × Prog)) 
   | .error _ => none
   | .ok m0 => sessionFrom fuel sr swaps inputs N P0 m0
 
+/-! ### the uninterrupted run (statement-level definitions) -/
+
+/-- the machine after `j` samples of the uninterrupted run of `P` (`none`: an evaluation error on the way) -/
+def machineAfter (fuel : Nat) (P : Prog) (sr : UInt64) (inputs : Nat → List UInt64) : Nat → Machine → Option Machine
+  | 0, m => some m
+  | j + 1, m =>
+    match Machine.step fuel P sr m (inputs m.t) with
+    | .error _ => none
+    | .ok (_, m') => machineAfter fuel P sr inputs j m'
+
+/-- `n` samples of the uninterrupted run of `P`: the outputs and the machine reached -/
+def prefixRun (fuel : Nat) (P : Prog) (sr : UInt64) (inputs : Nat → List UInt64) :
+    Nat → Machine → Option (List (List UInt64) × Machine)
+  | 0, m => some ([], m)
+  | n + 1, m =>
+    match Machine.step fuel P sr m (inputs m.t) with
+    | .error _ => none
+    | .ok (o, m') => (prefixRun fuel P sr inputs n m').map fun r => (o :: r.1, r.2)
+
 /-- a program that does not compile (syntax error, …): it has no published layout, so swapping to it is refused -/
 def brokenProg : Prog := ⟨[], [], ⟨"dsp", [], .call "" [] 0, none⟩⟩
 
